@@ -3,7 +3,6 @@
 """pure python trajectory calculation backend"""
 
 import math
-import warnings
 
 from typing_extensions import Optional, NamedTuple, Union, List, Tuple
 
@@ -372,7 +371,9 @@ class TrajectoryCalc:
         data_filter.setup_seen_zero(range_vector.y, self.barrel_elevation, self.look_angle)
 
         # region Trajectory Loop
-        warnings.simplefilter("once")  # used to avoid multiple warnings in a loop
+        # (no warnings.simplefilter() here: it rewrote the process-wide filter list on every call and overrode the
+        # user's own -W / simplefilter choice from then on; the default action already reports a warning raised
+        # repeatedly from one place in the loop only once)
         it = 0  # iteration counter
         while range_vector.x <= maximum_range + min_step:
             it += 1
